@@ -244,6 +244,12 @@ def run_schedule(programs, schedule, compression=None, default="stay", lines=Fal
         # code put there (a dummy, nothing) is left alone, so that the schedules run against the real (lack of) exclusion
         if isinstance(sess._lock, REAL_LOCK_TYPES):
             sess._lock = CoopLock(sched, "lock")
+        # ... and so is every other lock object the session or the websocket holds (a second lock for the writes, per-method
+        # locks, ...): a real lock held by a parked thread would block the thread that has the baton for ever
+        for holder in (sess, ws):
+            for k_, v_ in list(vars(holder).items()):
+                if k_ != "_lock" and isinstance(v_, REAL_LOCK_TYPES):
+                    object.__setattr__(holder, k_, CoopLock(sched, "xlock"))
         sess._start_time = 0.0
         if compression == "clock0":
             # the session's clock reads 0.0 for the whole run (no run() has started it yet / a coarse clock that has not advanced
